@@ -3,6 +3,9 @@ package fiber
 // C12 — flash messages and old input survive the redirect round trip intact, only once.
 
 import (
+	"bufio"
+	"bytes"
+
 	"github.com/tinylib/msgp/msgp"
 	"github.com/valyala/fasthttp"
 )
@@ -277,4 +280,65 @@ func VH_C12_mixed(caseID int) {
 		vAssert(olds[0].Value == fval, "old-input-value")
 	}
 	vReach("mixed")
+}
+
+// VH_C12_entry: the follow-up request enters through the application's real request handler, parsed
+// from wire bytes (so RawHeaders is filled and the handler itself decides whether to decode the
+// cookie), with each standard method (a 307/308 redirect preserves the method). case = method index.
+// The message is concrete and wire-safe: the wire parser runs on concrete bytes.
+func VH_C12_entry(mi int) {
+	methods := []string{MethodGet, MethodHead, MethodPost, MethodPut, MethodDelete, MethodPatch, MethodOptions}
+	method := methods[mi]
+	app := vNewApp(vCfgs[0])
+	app.Get("/issue", func(c Ctx) error {
+		return c.Redirect().Status(StatusTemporaryRedirect).With("k", "v", 35).To("/show")
+	})
+	var seen []FlashMessage
+	ran := false
+	app.All("/show", func(c Ctx) error {
+		ran = true
+		seen = c.Redirect().Messages()
+		return nil
+	})
+	app.startupProcess()
+	f1 := vDo(app, "GET", "/issue")
+	var ck fasthttp.Cookie
+	ck.SetKey(FlashCookieName)
+	vAssert(f1.Response.Header.Cookie(&ck), "entry-cookie-issued")
+	val := append([]byte(nil), ck.Value()...)
+	// (the issued bytes are raw msgpack, known finding C12-K1; this message has no byte fasthttp's
+	// request parser rejects, which "entry-wire-parse" confirms)
+	present := func(withCookie bool) *fasthttp.RequestCtx {
+		raw := []byte(method + " /show HTTP/1.1\r\nHost: h\r\n")
+		if withCookie {
+			raw = append(raw, "Cookie: "+FlashCookieName+"="...)
+			raw = append(raw, val...)
+			raw = append(raw, "\r\n"...)
+		}
+		raw = append(raw, "Content-Length: 0\r\n\r\n"...)
+		fctx := &fasthttp.RequestCtx{}
+		err := fctx.Request.Read(bufio.NewReader(bytes.NewReader(raw)))
+		vAssert(err == nil, "entry-wire-parse")
+		app.Handler()(fctx)
+		return fctx
+	}
+	seen, ran = nil, false
+	f2 := present(true)
+	vAssert(ran, "entry-handler-ran")
+	vAssert(len(seen) == 1, "entry-delivered-count")
+	if len(seen) == 1 {
+		vAssert(vAnd(seen[0].Key == "k", vAnd(seen[0].Value == "v", seen[0].Level == 35)), "entry-delivered")
+	}
+	var ck2 fasthttp.Cookie
+	ck2.SetKey(FlashCookieName)
+	has2 := f2.Response.Header.Cookie(&ck2)
+	vAssert(has2, "entry-expiring-cookie-present")
+	if has2 {
+		vAssert(!ck2.Expire().After(fasthttp.CookieExpireDelete), "entry-cookie-expired-after-read")
+	}
+	seen, ran = nil, false
+	present(false)
+	vAssert(ran, "entry-handler-ran-2")
+	vAssert(len(seen) == 0, "entry-absent-cookie-no-messages")
+	vReach("entry")
 }
